@@ -45,10 +45,14 @@ package lfs
 //@   ghost gis bool = false
 //@   at IsLfsEnvelope#1 after set gis = ret0
 //@   at DecodeEnvelope#1 after set genv = ret0
+//@   ghost gpayload []byte = nil
 //@   at Fetch#1 before assert [C30.resolve_fetches_envelope_key] arg1 == genv.Key
+//@   at Fetch#1 after set gpayload = ret0
 //@   ensures [C30.resolve_is_envelope] result1 == gis
 //@   ensures [C30.resolve_passthrough] !result1 ==> err == nil && sameSlice(result0.Payload, value) && result0.BlobSize == int64(len(value))
-//@   ensures [C30.resolve_envelope] err == nil && result1 ==> result0.Envelope == genv
+//@   ensures [C30.resolve_envelope] err == nil && result1 ==> result0.Envelope == genv && result0.ContentType == genv.ContentType
+//@   ensures [C30.resolve_payload_is_fetched_object] err == nil && result1 ==> sameSlice(result0.Payload, gpayload)
+//@   ensures [C30.resolve_error_no_blob] err != nil ==> len(result0.Payload) == 0
 //@   ensures [C30.resolve_checksum] err == nil && result1 && r.cfg.ValidateChecksum && lfsDeclares(result0.Envelope) ==> lfsSum(lfsDeclAlg(result0.Envelope), string(result0.Payload)) == lfsDeclSum(result0.Envelope)
 //@   ensures [C30.resolve_unsupported_alg] result1 && !lfsAlgKnown(lfsNormAlg(genv.ChecksumAlg)) ==> err != nil
 //@   ensures [C30.resolve_max_size] err == nil && result1 && r.cfg.MaxSize > 0 ==> int64(len(result0.Payload)) <= r.cfg.MaxSize
@@ -60,9 +64,12 @@ package lfs
 //@   ghost gis bool = false
 //@   at IsLfsEnvelope#1 after set gis = ret0
 //@   at DecodeEnvelope#1 after set genv = ret0
+//@   ghost gblob []byte = nil
 //@   at Fetch#1 before assert [C30.unwrap_fetches_envelope_key] arg1 == genv.Key
+//@   at Fetch#1 after set gblob = ret0
 //@   ensures [C30.unwrap_passthrough] !gis ==> err == nil && result0 == nil && sameSlice(result1, value)
 //@   ensures [C30.unwrap_envelope] gis && err == nil ==> result0 != nil && *result0 == genv
 //@   ensures [C30.unwrap_checksum] gis && err == nil && c.validateChecksum && lfsDeclares(genv) ==> lfsSum(lfsDeclAlg(genv), string(result1)) == lfsDeclSum(genv)
 //@   ensures [C30.unwrap_unsupported_alg] gis && c.validateChecksum && !lfsAlgKnown(lfsNormAlg(genv.ChecksumAlg)) ==> err != nil
+//@   ensures [C30.unwrap_blob_is_fetched_object] gis && err == nil ==> sameSlice(result1, gblob)
 //@   ensures [C30.unwrap_error_no_blob] err != nil ==> len(result1) == 0
